@@ -40,8 +40,14 @@ def normType (t : Int) : Int := if 0 ≤ t ∧ t ≤ 4 then t else 5
 def lookupRow (bt : Nat) (t : Int) : Option Gen.ParamRow :=
   Gen.paramTable.find? fun r => r.biotype == bt && r.type == normType t
 
-/-- exact model (values x1000) -/
-def alnParamInit (bt : Nat) (t : Int) (gpo gpe tgpe : Int) : Option (PSet Int) :=
+/-- `if(!(ap->gpo <= cap) || ...) ERROR`: a cap of 0 in `Gen.penaltyCaps` means the source has no bound for that field -/
+def capOK {V} (le : V → Nat → Bool) (p : PSet V) : Bool :=
+  let c := Gen.penaltyCaps
+  (c.getD 0 0 == 0 || le p.gpo (c.getD 0 0)) && (c.getD 1 0 == 0 || le p.gpe (c.getD 1 0)) &&
+  (c.getD 2 0 == 0 || le p.tgpe (c.getD 2 0))
+
+/-- table lookup + overrides, before the final bound check -/
+def alnParamInitCore (bt : Nat) (t : Int) (gpo gpe tgpe : Int) : Option (PSet Int) :=
   match lookupRow bt t with
   | some r => if r.ok then
       some (applyGuards (fun v => decide (0 ≤ v)) Gen.overrideGuardsT
@@ -49,13 +55,19 @@ def alnParamInit (bt : Nat) (t : Int) (gpo gpe tgpe : Int) : Option (PSet Int) :
     else none
   | none => none
 
+/-- exact model (values x1000) -/
+def alnParamInit (bt : Nat) (t : Int) (gpo gpe tgpe : Int) : Option (PSet Int) :=
+  (alnParamInitCore bt t gpo gpe tgpe).bind fun p =>
+    if capOK (fun v c => decide (v ≤ (c : Int) * 1000)) p then some p else none
+
 /-- executable binary32 model (bit patterns in, bit patterns out) -/
 def alnParamInitF (bt : Nat) (t : Int) (gpo gpe tgpe : Float32) : Option (PSet Float32) :=
   match lookupRow bt t with
   | some r => if r.ok then
-      some (applyGuards (fun v => v >= 0.0) Gen.overrideGuardsT
+      let p := applyGuards (fun v => v >= 0.0) Gen.overrideGuardsT
         { gpo := Float32.ofBits r.gpoBits.toUInt32, gpe := Float32.ofBits r.gpeBits.toUInt32,
-          tgpe := Float32.ofBits r.tgpeBits.toUInt32, mat := r.mat } gpo gpe tgpe)
+          tgpe := Float32.ofBits r.tgpeBits.toUInt32, mat := r.mat } gpo gpe tgpe
+      if capOK (fun v c => v <= c.toFloat32) p then some p else none
     else none
   | none => none
 
